@@ -467,6 +467,7 @@ type FuncContract struct {
 	LabelInv map[string][]*Clause
 	CallPre  map[string][]*Clause
 	Options  map[string]string
+	Assumes  map[string][]*Clause // label -> assumptions made when the label is reached (listed in the evidence)
 	Devirt   map[string]string // "Iface.Method" or method name -> concrete function key
 	Params   []SVar            // for extern / interface methods / ghost: declared params
 	Results  []SVar
@@ -524,7 +525,7 @@ func NewContractSet() *ContractSet {
 
 var clauseKeywords = map[string]bool{"func": true, "ghost": true, "pred": true, "axiom": true, "lemma": true, "lockinv": true, "protects": true,
 	"interface": true, "method": true, "props": true, "requires": true, "modifies": true, "ensures": true, "loop": true, "label": true,
-	"callpre": true, "option": true, "extern": true, "devirt": true, "end": true}
+	"callpre": true, "option": true, "extern": true, "devirt": true, "end": true, "assume": true}
 
 // LoadContracts parses every //@ line of file. pkgPath is the Go import path the
 // contracts are about ("" for externals: keys are then taken verbatim).
@@ -801,6 +802,19 @@ func (cs *ContractSet) LoadFile(file, pkgPath string) error {
 				if f[0] == "trusted" || f[0] == "assume" {
 					cs.Scan = append(cs.Scan, fmt.Sprintf("%s on %s (%s:%d)", f[0], cur.Key, file, rc.line))
 				}
+			case "assume":
+				// assume LABEL: expr   -- an explicit, listed assumption made when LABEL (e.g. lock1) is reached
+				k := strings.Index(rest, ":")
+				if k < 0 {
+					return fail("assume: want `assume LABEL: expr`")
+				}
+				c, err := mkClause("assume", rest[k+1:])
+				if err != nil {
+					return err
+				}
+				lbl := strings.TrimSpace(rest[:k])
+				cur.Assumes[lbl] = append(cur.Assumes[lbl], c)
+				cs.Scan = append(cs.Scan, fmt.Sprintf("assume at %s in %s (%s:%d): %s", lbl, cur.Key, file, rc.line, c.Text))
 			case "devirt":
 				// devirt r.writer.WriteAt => (*MultiWriterAt).WriteAt
 				parts := strings.Split(rest, "=>")
@@ -847,7 +861,7 @@ func qualify(name, pkgPath string) string {
 }
 
 func newFC() *FuncContract {
-	return &FuncContract{LoopInv: map[int][]*Clause{}, LabelInv: map[string][]*Clause{}, CallPre: map[string][]*Clause{}, Options: map[string]string{}, Devirt: map[string]string{}}
+	return &FuncContract{Assumes: map[string][]*Clause{}, LoopInv: map[int][]*Clause{}, LabelInv: map[string][]*Clause{}, CallPre: map[string][]*Clause{}, Options: map[string]string{}, Devirt: map[string]string{}}
 }
 
 // parseFuncHeader handles  "(c *Controller) Name(params) results"  and  "Name(params) results"
